@@ -200,6 +200,10 @@ var defVal = map[string]string{
 	"String": "a", "Int": "7", "Uint": "5", "Float": "1.5", "Time": "19991231-23:59:59.999", "Bool": "Y", "Raw": "r",
 }
 
+var sumTenths = func() float64 { a, b := 0.1, 0.2; return a + b }() // 0.30000000000000004: needs 17 significant digits
+
+func ff(x float64) string { return strconv.FormatFloat(x, 'f', -1, 64) }
+
 func longStr(n int) string { return strings.Repeat("x", n) }
 
 // value alphabets (canonical text); tag-dependent strings are added per template
@@ -207,7 +211,8 @@ var alphabet = map[string][]string{
 	"String": {"a", "=", "1=2", "10=000", "8=FIX.4.4", "9=5", "35=A", "a\x00b", "\x80\xfe\xff", " ", "=="},
 	"Int":    {"7", "0", "-1", "1", "9", "10", "99", "100", strconv.Itoa(math.MaxInt64), strconv.Itoa(math.MinInt64)},
 	"Uint":   {"5", "0", "1", "18446744073709551615"},
-	"Float":  {"1.5", "0", "-0.001", strconv.FormatFloat(1e21, 'f', -1, 64), strconv.FormatFloat(5e-324, 'f', -1, 64), strconv.FormatFloat(math.MaxFloat64, 'f', -1, 64), "-1"},
+	"Float":  {"1.5", "0", "-0.001", strconv.FormatFloat(1e21, 'f', -1, 64), strconv.FormatFloat(5e-324, 'f', -1, 64), strconv.FormatFloat(math.MaxFloat64, 'f', -1, 64), "-1",
+		ff(sumTenths), ff(math.Pi), ff(9007199254740992), ff(2.2250738585072014e-308), "123456.789", ff(1.0 / 3.0)},
 	"Time":   {"19991231-23:59:59.999", "00010101-00:00:00.000", "99991231-23:59:59.999", "20240229-12:00:00.001"},
 	"Bool":   {"Y", "N"},
 	"Raw":    {"r", "r=1", "10=000", "\x00\xff"},
@@ -385,6 +390,81 @@ func setLeaves(f []*node, ps []*pop, out *[]leafRef) {
 	}
 }
 
+// messageMode builds the message with the given group-entry assembly mode (see buildMode).
+func (t *tmpl) messageMode(hp, bp, tp []*pop, mode int) *fix.Message {
+	if t.Gen != "" || mode == 0 {
+		return t.message(hp, bp, tp)
+	}
+	return fix.NewMessage(t.BS, t.BL, t.CS, t.MT, t.Begin, t.MsgType).
+		SetHeader(fix.NewComponent(buildItemsMode(t.Hdr, hp, mode)...)).
+		SetBody(buildItemsMode(t.Body, bp, mode)...).
+		SetTrailer(fix.NewComponent(buildItemsMode(t.Trl, tp, mode)...))
+}
+
+// buildItemsMode: group entries are added EMPTY first and populated afterwards, either through the
+// existing values (mode 1) or by replacing the entry's slots via Component.Set (mode 2) — the two
+// ways the generated entry wrappers offer after AddEntry.
+func buildItemsMode(f []*node, ps []*pop, mode int) fix.Items {
+	var items fix.Items
+	for i, t := range f {
+		switch t.Kind {
+		case 'k':
+			items = append(items, fix.NewKeyValue(t.Tag, mkVal(t.Typ, ps[i])))
+		case 'c':
+			items = append(items, fix.NewComponent(buildItemsMode(t.Kids, ps[i].Kids, mode)...))
+		case 'g':
+			g := fix.NewGroup(t.Tag, buildItems(t.Kids, emptyPops(t.Kids))...)
+			for _, e := range ps[i].Entries {
+				entry := fix.NewComponent(buildItems(t.Kids, emptyPops(t.Kids))...)
+				g.AddEntry(entry.Items())
+				fillEntry(t.Kids, e, entry, mode)
+			}
+			items = append(items, g)
+		}
+	}
+	return items
+}
+
+func fillEntry(f []*node, ps []*pop, c *fix.Component, mode int) {
+	for i, t := range f {
+		switch t.Kind {
+		case 'k':
+			if !ps[i].Set {
+				continue
+			}
+			if mode == 1 {
+				kv := c.Get(i).(*fix.KeyValue)
+				if ps[i].Route == 'p' {
+					if err := kv.FromBytes([]byte(ps[i].Val)); err != nil {
+						panic(err)
+					}
+				} else if err := kv.Value.Set(decode(t.Typ, ps[i].Val)); err != nil {
+					panic(err)
+				}
+			} else {
+				c.Set(i, fix.NewKeyValue(t.Tag, mkVal(t.Typ, ps[i])))
+			}
+		case 'c':
+			if mode == 1 {
+				fillEntry(t.Kids, ps[i].Kids, c.Get(i).(*fix.Component), mode)
+			} else {
+				c.SetComponent(i, fix.NewComponent(buildItemsMode(t.Kids, ps[i].Kids, mode)...))
+			}
+		case 'g':
+			if mode == 1 {
+				g := c.Get(i).(*fix.Group)
+				for _, e := range ps[i].Entries {
+					entry := fix.NewComponent(buildItems(t.Kids, emptyPops(t.Kids))...)
+					g.AddEntry(entry.Items())
+					fillEntry(t.Kids, e, entry, mode)
+				}
+			} else {
+				c.SetGroup(i, buildItemsMode([]*node{t}, []*pop{ps[i]}, mode)[0].(*fix.Group))
+			}
+		}
+	}
+}
+
 func (t *tmpl) message(hp, bp, tp []*pop) *fix.Message {
 	if t.Gen != "" {
 		return t.genMessage(hp, bp, tp)
@@ -490,7 +570,7 @@ func templates(budget int, visit func(idx int, t *tmpl)) int {
 		{{Kind: 'k'}, {Kind: 'g', Kids: []*node{{Kind: 'k'}, {Kind: 'k'}}}},
 	}
 	trlForms := [][]*node{{}, {{Kind: 'k'}}}
-	for si, shape := range forests(budget, 3) {
+	for si, shape := range forests(budget, 4) {
 		for ti, typs := range typeOrders {
 			fi := (si + ti) % len(framings)
 			hf := hdrForms[(si/2+ti)%len(hdrForms)]
